@@ -299,26 +299,24 @@ def process_template(unit, tmpl_path, repo_root):
 
 
 def _do_macrofn(asm, toks, block, tmpl_line):
-    """R13: generate `<name>__fn` from a macro body and register the macro in fn mode."""
+    """R13: generate `<name>__fn` from a macro body, splice its contract like any fn cut, and register the macro in
+    fn mode.  //@params name:kind:type with kind in mut | ref | val | alias (alias: the argument is always the given
+    place expression of another parameter, e.g. `self.buffer`; it is not passed, the body uses the place)."""
     pos, kv = _kv(toks)
     src = Source.get(asm.repo, kv['path'])
     md = cut_macro(src, kv['name'])
     secs = _sections(block)
     fn_params = None
-    spec_lines = []
-    mutations = []
-    for tk, lines_, no in secs:
+    rest = []
+    for sec in secs:
+        tk = sec[0]
         if tk[0] == 'params':
             fn_params = []
             for t in tk[1:]:
                 pn, kind, ty = t.split(':', 2)
                 fn_params.append((pn, kind, ty))
-        elif tk[0] == 'spec':
-            spec_lines = lines_
-        elif tk[0] == 'mutate':
-            mutations.append((tk[1], tk[2], no))
         else:
-            raise CutError('template line %d: %s not allowed in //@macrofn' % (no, tk[0]))
+            rest.append(sec)
     if fn_params is None or [p[0] for p in fn_params] != [p[0] for p in md.params]:
         raise CutError('macrofn %s: //@params must list the macro parameters %s in order' % (kv['name'], [p[0] for p in md.params]))
     may_return = kv.get('may_return', '0') == '1'
@@ -326,43 +324,23 @@ def _do_macrofn(asm, toks, block, tmpl_line):
     fname = kv['name'] + '__fn'
     ret = ' -> (%s: core::result::Result<(), Error>)' % kv.get('ret', 'r') if may_return else ''
     mline = int(md.where.split(':')[1])
-    asm.emit('pub fn %s%s(%s)%s' % (fname, g, params, ret), ('macrofn', src.rel, mline, fname))
-    for no, l in spec_lines:
-        asm.emit(l, ('clause', no, 'spec', fname))
-    for ck, ctext in _count_clauses([l for _, l in spec_lines]):
-        if ck in ('ensures', 'invariant', 'assert', 'decreases'):
-            asm.clauses.append({'fn': fname, 'at': 'spec', 'kind': ck, 'text': ' '.join(ctext.split())[:300], 'tmpl_line': spec_lines[0][0] if spec_lines else tmpl_line})
-    asm.emit('{', ('macrofn', src.rel, mline, fname))
-    for k, l in enumerate(body.split('\n')):
-        asm.emit(l, ('repo', src.rel, mline + k, fname))
-    asm.emit('    core::result::Result::Ok(())' if may_return else '', ('macrofn', src.rel, mline, fname))
-    asm.emit('}', ('macrofn', src.rel, mline, fname))
-    for frm, to, no in mutations:
-        mm_ = mask(body)
-        idx = code_find(body, mm_, frm, 0)
-        if idx < 0:
-            asm.negctl_skipped.append({'of': fname, 'from': frm, 'to': to, 'why': 'text to edit not present in the macro body'})
-            continue
-        mb = body[:idx] + to + body[idx + len(frm):]
-        nm = '%s__negctl%d' % (fname, len(asm.negctl) + 1)
-        asm.emit('pub fn %s%s(%s)%s' % (nm, g, params, ret), ('negctl', nm, ('macrofn', src.rel, mline, fname)))
-        for no2, l in spec_lines:
-            asm.emit(l, ('negctl', nm, ('clause', no2, 'spec', fname)))
-        asm.emit('{', ('negctl', nm, ('macrofn', src.rel, mline, fname)))
-        for k, l in enumerate(mb.split('\n')):
-            asm.emit(l, ('negctl', nm, ('repo', src.rel, mline + k, fname)))
-        asm.emit('    core::result::Result::Ok(())' if may_return else '', ('negctl', nm, ('macrofn', src.rel, mline, fname)))
-        asm.emit('}', ('negctl', nm, ('macrofn', src.rel, mline, fname)))
-        asm.negctl.append({'name': nm, 'of': fname, 'from': frm, 'to': to})
-    md.fn_params = [(pn, kind) for pn, kind, ty in fn_params]
+    tail = '\n    core::result::Result::Ok(())\n' if may_return else '\n'
+    attr = ('#[verifier::rlimit(%s)] ' % kv['rlimit']) if kv.get('rlimit') else ''
+    text = attr + 'pub fn %s%s(%s)%s {' % (fname, g, params, ret) + body + tail + '}'
+
+    class _C:
+        pass
+    c = _C()
+    c.src = src
+    c.line = mline
+    c.kind = 'macro-as-fn'
+    c.where = lambda: md.where
+    c.sha = lambda: __import__('hashlib').sha256(md.body.encode()).hexdigest()[:16]
+    kv2 = {'name': fname, 'path': kv['path']}
+    _finish_cut(asm, c, text, hits, kv2, rest, 'fn')
+    md.fn_params = [(pn, kind, ty) for pn, kind, ty in fn_params]
     md.may_return = may_return
     asm.macros[kv['name']] = md
-    import hashlib
-    asm.cuts.append({'kind': 'macro-as-fn', 'name': fname, 'impl': None, 'where': md.where,
-                     'sha256_16_repo_text': hashlib.sha256(md.body.encode()).hexdigest()[:16], 'dropped': hits,
-                     'asserts_in_code': len(re.findall(r'\bassert!\(', body))})
-    for k2, v in hits.items():
-        asm.hits_total[k2] = asm.hits_total.get(k2, 0) + v
 
 
 def _sections(block):
@@ -437,6 +415,10 @@ def _do_cut(asm, toks, block, tmpl_line):
     else:
         raise CutError('template line %d: unknown cut kind %s' % (tmpl_line, kind))
 
+    _finish_cut(asm, c, text, hits, kv, secs, kind)
+
+
+def _finish_cut(asm, c, text, hits, kv, secs, kind):
     mutations = []
     inserts = {}      # char index in text -> list of (lineno, line)
     # replaces first (they change the text the anchors look at)
